@@ -93,3 +93,70 @@ Example casc_wf_cunique_bx_code : wf_cunique_b C06Wirings.casc_schema C06Wirings
 Proof. vm_compute. reflexivity. Qed.
 Example idx_wf_cunique_mgr_level : wf_cunique_b C06Wirings.idx_schema C06Wirings.w_mgr C06Wirings.w_level = true.
 Proof. vm_compute. reflexivity. Qed.
+
+(* ---- typed fields (harness/cmd/storageharness/store_c03t.go: c03typL1 c03typL3s use typ_led_schema ; c03typS1 c03typS2 use
+   typ_sen_schema).  The fields serial / slot / opened / rate / on and stamp / weight / port / code / live / rank are int64,
+   int32, datetime, float64 and bool fields of the harness entity; the store machine is given (and prints) their values as
+   the byte strings of their storage encoding, which are the index keys, so for the machine they are ordinary fields. *)
+Definition t_acc : name := [97;99;99].
+Definition t_sav : name := [115;97;118].
+Definition t_flag : name := [102;108;97;103].
+Definition t_serial : name := [115;101;114;105;97;108].
+Definition t_slot : name := [115;108;111;116].
+Definition t_opened : name := [111;112;101;110;101;100].
+Definition t_memo : name := [109;101;109;111].
+Definition t_rate : name := [114;97;116;101].
+Definition t_on : name := [111;110].
+Definition t_why : name := [119;104;121].
+Definition t_dev : name := [100;101;118].
+Definition t_hub : name := [104;117;98].
+Definition t_devx : name := [100;101;118;120].
+Definition t_stamp : name := [115;116;97;109;112].
+Definition t_weight : name := [119;101;105;103;104;116].
+Definition t_port : name := [112;111;114;116].
+Definition t_code : name := [99;111;100;101].
+Definition t_live : name := [108;105;118;101].
+Definition t_rank : name := [114;97;110;107].
+Definition t_devs : name := [100;101;118;115].
+
+Definition typ_led_schema : schema :=
+  [ mkSdef t_acc None false [(t_serial, false); (t_slot, true); (t_opened, true); (t_memo, true)] [d_topics]
+      [CUnique t_serial false; CSetIdx d_topics; CUnique t_slot true; CUnique t_opened true] [];
+    mkSdef t_sav (Some t_acc) false [(t_rate, true)] [] [CUnique t_rate true] [];
+    mkSdef t_flag None false [(t_on, false); (t_why, true)] [] [CUnique t_on false] [] ].
+
+Definition typ_sen_schema : schema :=
+  [ mkSdef t_dev None false [(t_stamp, false); (t_weight, false); (t_port, false); (t_hub, true)] []
+      [CUnique t_stamp false; CUnique t_weight false; CFkIndex t_hub t_hub t_devs true; CUnique t_port false] [];
+    mkSdef t_hub None false [(t_code, true); (t_live, true); (d_title, false)] [d_kinds]
+      [CFkRestrict t_devs; CUnique t_code true; CSetIdx d_kinds; CUnique t_live true; CUnique d_title false] [];
+    mkSdef t_devx (Some t_dev) true [(t_rank, false)] [] [CUnique t_rank false] [] ].
+
+Example typ_led_wf_unique_acc_serial : wf_unique_b typ_led_schema t_acc t_serial = true.
+Proof. vm_compute. reflexivity. Qed.
+Example typ_led_wf_unique_acc_slot : wf_unique_b typ_led_schema t_acc t_slot = true.
+Proof. vm_compute. reflexivity. Qed.
+Example typ_led_wf_unique_acc_opened : wf_unique_b typ_led_schema t_acc t_opened = true.
+Proof. vm_compute. reflexivity. Qed.
+Example typ_led_wf_unique_flag_on : wf_unique_b typ_led_schema t_flag t_on = true.
+Proof. vm_compute. reflexivity. Qed.
+Example typ_led_wf_setidx_acc_topics : wf_setidx_b typ_led_schema t_acc d_topics = true.
+Proof. vm_compute. reflexivity. Qed.
+Example typ_led_wf_cunique_sav_rate : wf_cunique_b typ_led_schema t_sav t_rate = true.
+Proof. vm_compute. reflexivity. Qed.
+Example typ_sen_wf_unique_dev_stamp : wf_unique_b typ_sen_schema t_dev t_stamp = true.
+Proof. vm_compute. reflexivity. Qed.
+Example typ_sen_wf_unique_dev_weight : wf_unique_b typ_sen_schema t_dev t_weight = true.
+Proof. vm_compute. reflexivity. Qed.
+Example typ_sen_wf_unique_dev_port : wf_unique_b typ_sen_schema t_dev t_port = true.
+Proof. vm_compute. reflexivity. Qed.
+Example typ_sen_wf_unique_hub_code : wf_unique_b typ_sen_schema t_hub t_code = true.
+Proof. vm_compute. reflexivity. Qed.
+Example typ_sen_wf_unique_hub_live : wf_unique_b typ_sen_schema t_hub t_live = true.
+Proof. vm_compute. reflexivity. Qed.
+Example typ_sen_wf_unique_hub_title : wf_unique_b typ_sen_schema t_hub d_title = true.
+Proof. vm_compute. reflexivity. Qed.
+Example typ_sen_wf_setidx_hub_kinds : wf_setidx_b typ_sen_schema t_hub d_kinds = true.
+Proof. vm_compute. reflexivity. Qed.
+Example typ_sen_wf_cunique_devx_rank : wf_cunique_b typ_sen_schema t_devx t_rank = true.
+Proof. vm_compute. reflexivity. Qed.
